@@ -104,7 +104,7 @@ def run_batch(prop, seed, runs, tier, workers, keep_first=3):
 
 def child_exec(prop, case, hashseed="0", timeout=600, extra_env=None):
     """Execute one explicit case in a fresh interpreter; returns the result dict."""
-    d = tempfile.mkdtemp(prefix="verif-child-", dir="/dev/shm" if os.path.isdir("/dev/shm") else None)
+    d = tempfile.mkdtemp(prefix="child-", dir=core.scratch_base())
     try:
         cf = os.path.join(d, "case.json")
         with open(cf, "w") as f:
@@ -315,6 +315,9 @@ def main(argv=None):
 
 def run_check(mod, prop, seed, args, t0):
     tier = args.tier
+    core.scratch_base()
+    if hasattr(mod, "worker_init"):
+        mod.worker_init()  # the main process minimises and re-executes cases itself
     workers = args.workers or int(os.environ.get("VERIF_WORKERS", "0") or 0) or min(16, os.cpu_count() or 1)
     known = core.load_known_findings()
     print("check %s tier=%s VERIF_SEED=%d workers=%d hashseed=%s" % (
